@@ -210,8 +210,18 @@ TD = "sleap_nn/inference/topdown.py"
 M("c02-revert-labels-preprocess", "C02", "revert LabelsReader preprocess fix (single instance)", PD, "            # frames are resized to the input scale and padded to the max stride here,\n            # exactly as for the VideoReader (the inference model does not do it).\n            self.preprocess = True\n            self.preprocess_config = {\n                \"batch_size\": self.batch_size,\n                \"scale\": self.confmap_config", "            self.preprocess = False\n            self.preprocess_config = {\n                \"batch_size\": self.batch_size,\n                \"scale\": self.confmap_config")
 M("c02-stride-dropped", "C02", "single: peaks*stride dropped when refinement is on", SI, "        peak_points = peak_points * self.output_stride\n", "        peak_points = peak_points * (self.output_stride if self.refinement is None else 1)\n")
 M("c02-effscale-twice", "C02", "FindInstancePeaks divides bbox by eff_scale twice", TD, "        inputs[\"instance_bbox\"] = inputs[\"instance_bbox\"] / self.input_scale\n", "        inputs[\"instance_bbox\"] = inputs[\"instance_bbox\"] / self.input_scale\n        inputs[\"instance_bbox\"] = inputs[\"instance_bbox\"] / (inputs[\"eff_scale\"].unsqueeze(dim=1).unsqueeze(dim=2).unsqueeze(dim=3))\n")
-M("c02-precrop-dropped", "C02", "CentroidCrop forgets to scale peaks by precrop_resize", TD, "                for ref_peak in self.refined_peaks_batched:\n                    scaled_refined_peaks.append(ref_peak * self.precrop_resize)\n                self.refined_peaks_batched = scaled_refined_peaks\n                inputs.update(", "                for ref_peak in self.refined_peaks_batched:\n                    scaled_refined_peaks.append(ref_peak * 1.0)\n                self.refined_peaks_batched = scaled_refined_peaks\n                inputs.update(")
+
 M("c02-input-scale-centroid", "C02", "CentroidCrop divides by input_scale twice", TD, "        refined_peaks = refined_peaks / self.input_scale\n", "        refined_peaks = refined_peaks / self.input_scale / (self.input_scale if self.output_stride == 4 else 1.0)\n")
 M("c02-bbox-offset", "C02", "make_centered_bboxes offsets dropped", IC, "    return corners + offset\n", "    return corners\n")
 M("c02-effscales-shared", "C02", "eff_scales of the batch replaced by the first frame's", PD, "                eff_scales = torch.tensor(eff_scales, dtype=torch.float32)\n", "                eff_scales = torch.tensor([eff_scales[0]] * len(eff_scales), dtype=torch.float32)\n")
 M("c02-sizematch-xy", "C02", "_predict_generator passes max_width as max_height", PD, "                    self.preprocess_config[\"max_height\"],\n                    self.preprocess_config[\"max_width\"],\n                )\n                if self.instances_key:", "                    self.preprocess_config[\"max_width\"],\n                    self.preprocess_config[\"max_height\"],\n                )\n                if self.instances_key:")
+
+BU = "sleap_nn/inference/bottomup.py"
+M("c03-revert-labels-preprocess", "C03", "revert LabelsReader preprocess fix (bottom-up)", PD, "            # frames are resized to the input scale and padded to the max stride here,\n            # exactly as for the VideoReader (the inference model does not do it).\n            self.preprocess = True\n            self.preprocess_config = {\n                \"batch_size\": self.batch_size,\n                \"scale\": self.bottomup_config", "            self.preprocess = False\n            self.preprocess_config = {\n                \"batch_size\": self.batch_size,\n                \"scale\": self.bottomup_config")
+M("c03-cms-stride-dropped", "C03", "peaks * cms stride dropped", BU, "        peaks = peaks * self.cms_output_stride  # (n_centroids, 2)\n", "        peaks = peaks * 1  # (n_centroids, 2)\n")
+M("c03-paf-stride-cms", "C03", "PAF scorer built with the cms stride", PG, "            pafs_stride=config.pafs.output_stride,\n", "            pafs_stride=config.confmaps.output_stride,\n")
+M("c03-channel-swap", "C03", "line subs address (2k+1, 2k)", PG, "    line_subs_first = line_subs * multiplier\n    line_subs_second = line_subs * multiplier + adder\n", "    line_subs_second = line_subs * multiplier\n    line_subs_first = line_subs * multiplier + adder\n")
+M("c03-permute", "C03", "pafs permuted (0,3,2,1)", BU, "        pafs = output[\"PartAffinityFieldsHead\"].permute(0, 2, 3, 1)\n", "        pafs = output[\"PartAffinityFieldsHead\"].permute(0, 3, 2, 1)\n")
+M("c03-input-scale-twice", "C03", "input scale applied twice for second+ sample", BU, "            predicted_instances_adjusted.append(\n                p / inputs[\"eff_scale\"][idx].to(p.device)\n            )", "            predicted_instances_adjusted.append(\n                p / inputs[\"eff_scale\"][idx].to(p.device) / (self.input_scale if idx > 0 else 1.0)\n            )")
+M("c03-rowcol-swap", "C03", "line subs row/col not swapped", PG, "    XY = XY[:, [1, 0], :]  # dim 1 is [row, col]\n", "    XY = XY[:, [0, 1], :]  # dim 1 is [row, col]\n")
+M("c03-toposort-bypass", "C03", "edges grouped in listing order", PG, "        self.sorted_edge_inds = toposort_edges(self.edge_types)\n", "        self.sorted_edge_inds = tuple(range(len(self.edge_types)))\n")
